@@ -179,6 +179,18 @@ class P(Prop):
         if "u" in q.blackboxes or any(n.startswith("u.") for n in q.graph.nodes):
             self.fail("search", "fill-instance-survives", "the filled blackbox did not disappear", case)
             return
+        if self.rng.random() < 0.4:
+            # a second instance of the SAME BlackBox object, added and filled after the first: the description object
+            # must not have been changed by the first round
+            q2 = q.copy()
+            conns2 = {pin: self.rng.choice(nets) for pin in sorted(child.inputs())}
+            conns2.update({pin: q2.add(f"from2_{pin}", "buf", uid=True, output=True) for pin in sorted(child.outputs())})
+            o1, _ = call(q2.add_blackbox, bb, "v", conns2)
+            o2, _ = call(q2.fill_blackbox, "v", child) if o1 == "ok" else ("skipped", None)
+            if (o1, o2) != ("ok", "ok") and not any(f"v_{x}" in q.graph.nodes or f"v.{x}" in q.graph.nodes for x in child.graph.nodes):
+                self.fail("search", "fill-second-instance", f"second instance of the same BlackBox object: add_blackbox -> {o1}, "
+                          f"fill_blackbox -> {o2} (inputs {sorted(bb.inputs())}, outputs {sorted(bb.outputs())})", case)
+                return
         if q.is_cyclic():
             return
         fr = free_nodes(q)
